@@ -181,6 +181,7 @@ inst!(b_rk_fwd_33, [props=C12+C14 xprops=C05 tier=quick cfg=x86std t=1500 role=r
 inst!(b_rk_rev_34, [props=C12 xprops=C05+C14 tier=thorough cfg=x86std t=1500 role=rabinkarp-long], 36, blocks::rabinkarp_long::<34, 36>(true));
 #[cfg(not(vcfg_x86none))]
 inst!(b_shiftor_16_8, [props=C12+C14 tier=quick cfg=x86std t=1500 role=shiftor], 18, blocks::shiftor::<16, 8>());
+#[cfg(not(vcfg_x86none))]
 inst!(b_shiftor_17_17, [props=C12 xprops=C14 tier=thorough cfg=x86std t=5400 role=shiftor], 19, blocks::shiftor::<17, 17>());
 
 // ---------------------------------------------------------------------------
@@ -403,38 +404,38 @@ pub mod meta {
 
 inst!(m_oneshot_fwd, [props=C03+C14 xprops=C05 tier=quick cfg=x86std+generic t=1500 role=memmem-find-oneshot uw=is_equal_raw:3;Hash:6;rabinkarp::Finder::new:6;rabinkarp::FinderRev::new:6;find_raw:12;rfind_raw:12;oracle:6], 4, meta::oneshot::<4, 10>(false));
 inst!(m_oneshot_rev, [props=C04+C05+C14 tier=quick cfg=x86std+generic t=1500 role=memmem-rfind-oneshot uw=is_equal_raw:3;Hash:6;rabinkarp::Finder::new:6;rabinkarp::FinderRev::new:6;find_raw:12;rfind_raw:12;oracle:6], 4, meta::oneshot::<4, 10>(true));
-inst!(m_finder_n0, [props=C03+C14 tier=quick cfg=x86std t=900 role=finder-empty], 4, meta::finder::<0, 20>(2, 0, 20));
-inst!(m_finder_rev_n0, [props=C04+C14 tier=quick cfg=x86std t=900 role=finderrev-empty], 4, meta::finder_rev::<0, 20>(0, 20));
+inst!(m_finder_n0, [props=C03+C14 tier=quick cfg=x86std t=900 role=finder-empty uw=@RK;@TWNEW;@TWOFF;with_ranker:6;oracle:6], 3, meta::finder::<0, 20>(2, 0, 20));
+inst!(m_finder_rev_n0, [props=C04+C14 tier=quick cfg=x86std t=900 role=finderrev-empty uw=@RK;@TWNEW;@TWOFF;with_ranker:6;oracle:6], 3, meta::finder_rev::<0, 20>(0, 20));
 
 // --- meta searcher routes ---------------------------------------------------
 // mode 1 = SSE2 only (packed-pair SSE2 route, Rabin-Karp below min_haystack_len)
-inst!(m_finder_n2_sse2, [props=C03+C05+C14 tier=quick cfg=x86std+x86none t=1800 role=finder-packed-sse2 uw=find_in_chunk:18;is_equal_raw:3;packedpair::Finder:3;rabinkarp::Finder::find_raw:22;Hash:5;rabinkarp::Finder::new:5;with_ranker:5;oracle:4], 4,
+inst!(m_finder_n2_sse2, [props=C03+C05+C14 tier=quick cfg=x86std+x86none t=1800 role=finder-packed-sse2 uw=@RK;@TWNEW;@TWOFF;with_ranker:6;oracle:6;@PP], 3,
     meta::finder::<2, 20>(1, 0, 20));
-inst!(m_finder_n3_sse2, [props=C03 xprops=C05+C14 tier=quick cfg=x86std t=1800 role=finder-packed-sse2 uw=find_in_chunk:18;is_equal_raw:3;packedpair::Finder:3;rabinkarp::Finder::find_raw:22;Hash:5;rabinkarp::Finder::new:5;with_ranker:5;oracle:5], 4,
+inst!(m_finder_n3_sse2, [props=C03 xprops=C05+C14 tier=quick cfg=x86std t=1800 role=finder-packed-sse2 uw=@RK;@TWNEW;@TWOFF;with_ranker:6;oracle:6;@PP], 3,
     meta::finder::<3, 20>(1, 0, 20));
-inst!(m_finder_n4_sse2_36, [props=C03 xprops=C05+C14 tier=thorough cfg=x86std t=3600 role=finder-packed-sse2 uw=find_in_chunk:18;is_equal_raw:3;packedpair::Finder:4;rabinkarp::Finder::find_raw:22;Hash:6;rabinkarp::Finder::new:6;with_ranker:6;oracle:6], 4,
+inst!(m_finder_n4_sse2_36, [props=C03 xprops=C05+C14 tier=thorough cfg=x86std t=3600 role=finder-packed-sse2 uw=@RK;@TWNEW;@TWOFF;with_ranker:6;oracle:6;@PP], 3,
     meta::finder::<4, 36>(1, 16, 36));
 // mode 2 = AVX2: the AVX2 finder falls back to its SSE2 half below 32+index bytes
-inst!(m_finder_n2_avx2, [props=C03 xprops=C05+C14 tier=quick cfg=x86std t=1800 role=finder-packed-avx2 uw=find_in_chunk:34;is_equal_raw:3;packedpair::Finder:3;rabinkarp::Finder::find_raw:22;Hash:5;rabinkarp::Finder::new:5;with_ranker:5;oracle:4], 4,
+inst!(m_finder_n2_avx2, [props=C03 xprops=C05+C14 tier=quick cfg=x86std t=1800 role=finder-packed-avx2 uw=@RK;@TWNEW;@TWOFF;with_ranker:6;oracle:6;@PP32], 3,
     meta::finder::<2, 36>(2, 30, 36));
-inst!(m_finder_n3_avx2_66, [props=C03 xprops=C05+C14 tier=thorough cfg=x86std t=5400 role=finder-packed-avx2 uw=find_in_chunk:34;is_equal_raw:3;packedpair::Finder:4;rabinkarp::Finder::find_raw:22;Hash:5;rabinkarp::Finder::new:5;with_ranker:5;oracle:5], 4,
+inst!(m_finder_n3_avx2_66, [props=C03 xprops=C05+C14 tier=thorough cfg=x86std t=5400 role=finder-packed-avx2 uw=@RK;@TWNEW;@TWOFF;with_ranker:6;oracle:6;@PP32], 3,
     meta::finder::<3, 66>(2, 0, 66));
 // one-byte needle -> memchr
-inst!(m_finder_n1, [props=C03 xprops=C14 tier=quick cfg=x86std+generic t=1800 role=finder-one-byte uw=byte_by_byte:18;find_raw.0:3;find_raw.1:4;all::memchr:10], 4,
+inst!(m_finder_n1, [props=C03 xprops=C14 tier=quick cfg=x86std+generic t=1800 role=finder-one-byte uw=@RK;@TWNEW;@TWOFF;with_ranker:6;oracle:6;@MEMCHR], 3,
     meta::finder::<1, 20>(1, 0, 20));
 // reverse
-inst!(m_finder_rev_n1, [props=C04 xprops=C14 tier=quick cfg=x86std+generic t=1800 role=finderrev-one-byte uw=byte_by_byte:18;find_raw.0:3;find_raw.1:4;all::memchr:10], 4,
+inst!(m_finder_rev_n1, [props=C04 xprops=C14 tier=quick cfg=x86std+generic t=1800 role=finderrev-one-byte uw=@RK;@TWNEW;@TWOFF;with_ranker:6;oracle:6;@MEMCHR], 3,
     meta::finder_rev::<1, 20>(0, 20));
-inst!(m_finder_rev_n2_rk, [props=C04 xprops=C05+C14 tier=quick cfg=x86std+generic t=1800 role=finderrev-rabinkarp], 17,
+inst!(m_finder_rev_n2_rk, [props=C04 xprops=C05+C14 tier=quick cfg=x86std+generic t=1800 role=finderrev-rabinkarp uw=@RK;@TWNEW;@TWOFF;with_ranker:6;oracle:6], 3,
     meta::finder_rev::<2, 15>(0, 15));
-inst!(m_finder_rev_n3_rk, [props=C04 xprops=C05+C14 tier=quick cfg=x86std t=1800 role=finderrev-rabinkarp], 17,
+inst!(m_finder_rev_n3_rk, [props=C04 xprops=C05+C14 tier=quick cfg=x86std t=1800 role=finderrev-rabinkarp uw=@RK;@TWNEW;@TWOFF;with_ranker:6;oracle:6], 3,
     meta::finder_rev::<3, 15>(0, 15));
-inst!(m_finder_rev_n2_tw16, [props=C04 xprops=C05+C14 tier=quick cfg=x86std+generic t=1800 role=finderrev-twoway-routing], 19,
+inst!(m_finder_rev_n2_tw16, [props=C04 xprops=C05+C14 tier=quick cfg=x86std+generic t=1800 role=finderrev-twoway-routing uw=@RK;@TWNEW;_imp.0:19;_imp.1:4;_imp.2:4;oracle:6], 3,
     meta::finder_rev::<2, 17>(16, 17));
-inst!(m_finder_rev_n3_tw, [props=C04 xprops=C05+C14 tier=thorough cfg=x86std t=5400 role=finderrev-twoway-routing], 20,
+inst!(m_finder_rev_n3_tw, [props=C04 xprops=C05+C14 tier=thorough cfg=x86std t=5400 role=finderrev-twoway-routing uw=@RK;@TWNEW;_imp.0:20;_imp.1:5;_imp.2:5;oracle:6], 3,
     meta::finder_rev::<3, 18>(15, 18));
 // no SIMD available on x86 (mode 0): Two-Way + the portable prefilter
-inst!(m_finder_n2_nosimd_rk, [props=C03 xprops=C05+C14 tier=quick cfg=x86std+generic t=1800 role=finder-nosimd-rabinkarp], 17,
+inst!(m_finder_n2_nosimd_rk, [props=C03 xprops=C05+C14 tier=quick cfg=x86std+generic t=1800 role=finder-nosimd-rabinkarp uw=@RK;@TWNEW;@TWOFF;with_ranker:6;oracle:6;find_prefilter.0:2;@MEMCHR], 3,
     meta::finder::<2, 15>(0, 0, 15));
-inst!(m_finder_n2_nosimd_tw, [props=C03 xprops=C05+C14 tier=thorough cfg=generic t=7200 role=finder-nosimd-twoway-prefilter], 19,
+inst!(m_finder_n2_nosimd_tw, [props=C03 xprops=C05+C14 tier=thorough cfg=generic t=7200 role=finder-nosimd-twoway-prefilter uw=@RK;@TWNEW;_imp.0:19;_imp.1:4;_imp.2:4;with_ranker:6;oracle:6;find_prefilter.0:19;@MEMCHR], 3,
     meta::finder::<2, 17>(0, 16, 17));
